@@ -100,7 +100,8 @@ def _handle_running(
     # Atomic: store stage + push message together
     txn_helper.execute_atomic(
         stage=stage,
-        messages_to_push=[(message, delay.total_seconds())],
+        # A poll continuation is not a retry: it starts with a fresh attempt count.
+        messages_to_push=[(message.copy_with_attempts(0), delay.total_seconds())],
         handler_name="RunTask",
     )
 
